@@ -66,7 +66,11 @@ def dump(expr, precs, pr):
             raise Refuse("noncommutative")
         if expr.exp.is_integer and not expr.exp.is_Integer:
             raise Refuse("symbolic integer exponent")
-        return "SPow (%s) (%s)" % (dump(expr.base, precs, pr), dump(expr.exp, precs, pr))
+        b, ex = expr.base, expr.exp
+        if (b.is_Rational and b.p == 1 and b.q != 1 and ex.is_Mul and ex.args[0] is S.NegativeOne and len(ex.args) > 2):
+            # as a Mul factor apow would build Mul(-g1, g2, ..) from the raw argument order: not modelled
+            raise Refuse("unit-fraction base with exponent -g1*g2*..")
+        return "SPow (%s) (%s)" % (dump(b, precs, pr), dump(ex, precs, pr))
     if isinstance(expr, Integer):
         return "SInt %s" % coqz(expr.p)
     if isinstance(expr, Rational):
@@ -94,7 +98,7 @@ def shape(n):
     if isinstance(n, ast.UnaryOp) and isinstance(n.op, ast.USub):
         return "PNeg (%s)" % shape(n.operand)
     if isinstance(n, ast.Constant) and isinstance(n.value, int) and not isinstance(n.value, bool):
-        return "PNum %d" % n.value
+        return "PNum %d%%N" % n.value
     if isinstance(n, ast.Name):
         return 'PName "%s"' % n.id
     if isinstance(n, ast.Call) and isinstance(n.func, ast.Name) and not n.keywords:
@@ -136,6 +140,8 @@ BAD_ATOMS = (S.NaN, S.Infinity, S.NegativeInfinity, S.ImaginaryUnit, S.Pi)
 
 def ok_expr(e):
     if e is None:
+        return False
+    if e is not S.ComplexInfinity and e.has(S.ComplexInfinity):
         return False
     for n in sympy.preorder_traversal(e):
         if isinstance(n, BAD_TYPES) or any(n is b for b in BAD_ATOMS):
@@ -320,25 +326,41 @@ def points(rng, n=12):
     return pts
 
 
-def evaluator(e):
-    """point -> complex value (mpmath, 30 digits) or None when undefined / overflow / unknown symbol"""
+def evaluator(e, subexprs=False):
+    """point -> complex value (mpmath, 30 digits) or None when undefined / overflow / unknown symbol.
+    With subexprs=True the point counts as defined only if EVERY subexpression has a finite real value
+    there (log of a positive number, real powers, no division by zero): the usual real reading."""
     import mpmath
     syms = sorted(e.free_symbols, key=lambda s: s.name)
+    subs = [e]
+    npos = 0
+    if subexprs:
+        nodes = list(dict.fromkeys(sympy.preorder_traversal(e)))
+        pos = [n.base for n in nodes if isinstance(n, Pow) and not n.exp.is_Integer]
+        pos += [n.args[0] for n in nodes if isinstance(n, log)]
+        npos = len(pos)
+        subs = [e] + pos + [n for n in nodes if n is not e and not n.is_Atom]
     try:
-        f = sympy.lambdify(syms, e, modules="mpmath")
+        f = sympy.lambdify(syms, subs, modules="mpmath")
     except Exception:
         return lambda pt: None
 
     def ev(pt):
         try:
             with mpmath.workdps(30):
-                v = f(*[mpmath.mpf(pt[s.name]) for s in syms])
-                c = complex(v)
+                vs = f(*[mpmath.mpf(pt[s.name]) for s in syms])
+                cs = [complex(v) for v in vs]
         except Exception:
             return None
-        if c != c or abs(c) > 1e60 or abs(c) == float("inf"):
-            return None
-        return c
+        for c in cs:
+            if c != c or abs(c) > 1e60 or abs(c) == float("inf"):
+                return None
+            if subexprs and abs(c.imag) > 1e-12 * max(1.0, abs(c.real)):
+                return None
+        for c in cs[1:1 + npos]:
+            if not c.real > 1e-30:
+                return None
+        return cs[0]
     return ev
 
 
@@ -366,7 +388,7 @@ def search(exprs, seed):
         except Exception as ex:
             res["failures"].append(dict(kind="printer-raised", srepr=srepr(e), error=repr(ex)))
             continue
-        ev0 = evaluator(e)
+        ev0 = evaluator(e, subexprs=True)
         vals0 = [ev0(pt) for pt in pts]
         good = [i for i, v in enumerate(vals0) if v is not None and abs(v.imag) <= 1e-12 * max(1.0, abs(v.real))]
         if not good:
